@@ -269,3 +269,32 @@ PROPS['C07'] = dict(
     trusted_base=TRUSTED_COMMON + IDEALCL + ["'the proof leaks nothing' at the level of the numbers of the CL proof is an assumption about the zero-knowledge property of the CL scheme; the scan only finds verbatim occurrences"],
 )
 PROPS['C18']['spec_is_model'] = ['c18']
+
+PROPS['C11'] = dict(
+    lean_targets=['AnonModel.Props.C11'],
+    required_theorems=['C11_issue_ok_iff', 'C11_issue_replayed_request_refused', 'C11_issue_foreign_request_refused', 'C11_issue_wrong_attributes_refused',
+                       'C11_issue_case_variants_accepted', 'C11_request_ok_iff', 'C11_process_ok_iff', 'C11_honest_roundtrip', 'C11_tamper_rejected_changed_value',
+                       'C11_tamper_rejected_other_holder', 'C11_processed_is_presentable'],
+    families=[dict(name='c11')], default_dir='exact', spec_is_model=['c11'],
+    fam_theorem={'c11': 'C11_issue_ok_iff / C11_process_ok_iff over the issuance model'},
+    rule="for three definitions (URI ids, case/space-variant attribute names, legacy ids with prover DID) and two holders: issuer side — honest (offer, request) pairing, a request replayed under a fresh offer, a request made for another definition, blinded secret altered, attribute set missing / extra / renamed / respelled; holder side — honest processing, other link secret, metadata of another request, other definition, encoded value changed, raw only changed, two values swapped, key respelled, value removed, six perturbed numbers of signature and correctness proof, cred_def_id string changed; real issuer/prover decisions compared exactly with the model (ghost: which key / holder / blinding / nonce each object was really built with); oracle: tampered or foreign => refused, honest => accepted",
+    trusted_base=TRUSTED_COMMON + ["IdealCL issuance (DESIGN §4 v): blinded-secret and signature correctness proofs verify iff built for that key / nonce / values / blinding — assumed, validated on every generated pairing and alteration"],
+)
+PROPS['C14'] = dict(
+    lean_targets=['AnonModel.Props.C14'],
+    required_theorems=['C14_to_from', 'C14_to_from_raw', 'C14_from_to', 'C14_from_to_from', 'C14_to_refuses_iff', 'C14_from_refuses_iff', 'C14_refuses_boolean_entry'],
+    families=[dict(name='c14')], default_dir='exact', spec_is_model=['c14'],
+    fam_theorem={'c14': 'C14_to_from_computed / C14_from_to (conversion functions) and the refusal characterisations'},
+    rule="real credentials (revocable or not, data model 1.1 and 2.0) with value pools: text, numbers, zero-padded and signed numbers, both 32-bit boundaries and their out-of-range neighbours, unicode digits, empty string, space-prefixed, exponent form, emoji, random padded numbers: legacy -> W3C -> legacy -> W3C; subject and returned values compared exactly with the model; oracles on the real objects: schema / definition / registry ids, signature, correctness proof, rev_reg, witness identical after the round trip, every encoded value identical, second trip identical; W3C-side subjects (number as string, boundaries, boolean marker, empty string); refusals: missing AnonCreds context, missing W3C type, v1.1 without issuanceDate, presentation proof instead of signature proof, registry id without witness, empty values, invalid schema id; a credential issued in W3C form, converted, presented in legacy form and verified",
+    trusted_base=TRUSTED_COMMON + ["identifiers, signature material and revocation data are copied field by field by the Rust code and are outside the model: compared on real objects by the harness oracles only"],
+)
+PROPS['C15'] = dict(
+    lean_targets=['AnonModel.Props.C15'],
+    required_theorems=['C15_nonce_ser_de', 'C15_nonce_string_kept', 'C15_nonce_rejects', 'C15_revlist_de_ser', 'C15_revlist_ser_de', 'C15_ver_roundtrip',
+                       'C15_missing_ver_is_v1', 'C15_attrval_de_ser', 'C15_attrval_ser_de', 'C15_attrval_rejects'],
+    families=[dict(name='c15')], default_dir='exact', spec_is_model=['c15'],
+    fam_theorem={'c15': 'C15_nonce_* / C15_revlist_* / C15_ver_* / C15_attrval_* (hand-written codecs = model)'},
+    rule="hand-written codecs compared exactly with the model on ~2000 JSON inputs each way (Nonce from strings with leading zeros / numbers / byte arrays incl. truncation and trailing junk / wrong types; revocation list bits incl. other numbers, floats, booleans; request version present / absent / unknown / mistyped; untagged attribute value over the i32 boundaries, floats, big integers, null, arrays). Hop stream (oracle, all 17 object types): every complete flow (legacy / W3C x plain / revocable) is run twice from the same PRNG state, once directly and once with a serialise->deserialise hop at every hand-over point (schema, definition and its private and correctness parts, offer, request and metadata, credential before and after processing, registry definition and private part, status list, revocation state, nonce, presentation request, presentation): outcomes must agree; ser(de(ser x)) = ser x as canonical documents (JSON values, msgpack envelopes decoded); every cast object and 24 random honest presentations hopped and re-verified",
+    trusted_base=TRUSTED_COMMON + ["serde derive, serde_json, rmp-serde, base64 and the CL crate's (de)serialisers are external code outside the model (the property is partial in that sense): exercised by the hop stream only"],
+    not_exhibited_by_model=["derive-generated and CL-crate codecs, the msgpack/base64 envelope: hop stream (test) only"],
+)
